@@ -53,6 +53,13 @@ CLAIMS = {
               'Not decided: concurrent bags / per-thread containers, union-find, bulk bitset ops, float sums beyond the proved fold order, -infinity inputs.')),
 }
 
+CLAIMS['C16'] = dict(
+    text=('Proof, per function, of the partition skeleton: partition_helper_state constructor/takeLow/takeHigh/update (critical sections: lock invariant kept, the block handed out and the remaining '
+          'middle partition the old middle, leftover span well formed) and the sequential tail of partition() (with the parallel phase replaced by the assumed contract its step contracts justify): '
+          'the returned iterator is a valid partition point for an arbitrary element, in the no-leftover case and with leftovers on either or both sides; std::partition always gets a valid range.'),
+    note=('Only partition is claimed. sort, count_if, find_if, accumulate, map_reduce, partial_sum, destroy, dual_partition, permutation preservation and the std:: algorithms are NOT decided. '
+          'Trusted: assumed contract for the parallel phase, std::partition stub, random-access iterators as indices.'))
+
 NA = {
     'C01': 'schedule/worklist-policy property of deeply templated executors (histories of several threads); outside CBMC\'s C++ reach and not a per-call contract',
     'C07': 'relation between different executions (determinism across schedules/thread counts) of a ~1000-line template executor; no single-call contract expresses it',
